@@ -28,7 +28,7 @@ def main():
     if len(sys.argv) > 1 and sys.argv[1] != 'all':
         seeds = [s for s in seeds if s in sys.argv[1].split(',')]
     res = {}
-    path = '/verif/seeded/results.json'
+    path = os.environ.get('SEEDMATRIX_OUT', '/verif/seeded/results.json')
     if os.path.exists(path):
         res = json.load(open(path))
     with ThreadPoolExecutor(6) as ex:
@@ -46,5 +46,6 @@ def main():
         errs = [c for c, v in sorted(res[seed].items()) if v['rc'] == 2]
         lines.append('| %s | %s | %s%s | %s |' % (seed, {1: 'yes', 0: 'NO', 2: 'harness error'}.get(o.get('rc'), '?'), ', '.join(others) or '-',
                                               (' (harness error: %s)' % ', '.join(errs)) if errs else '', o.get('why', '').replace('|', '/')[:160]))
-    open('/verif/seeded/RESULTS.md', 'w').write('\n'.join(lines) + '\n')
+    if 'SEEDMATRIX_OUT' not in os.environ:
+        open('/verif/seeded/RESULTS.md', 'w').write('\n'.join(lines) + '\n')
 main()
